@@ -203,11 +203,20 @@ def rcolumn(rng, n, name):
 
 
 def rmeasurement(rng):
+    """`m` in every msgpack scalar type: str, every int width, uint64, float32/64, bool, nil, bin; sometimes junk"""
     r = rng.random()
-    if r < 0.75:
+    if r < 0.62:
         return ("str", rng.choice(MEAS))
-    if r < 0.92:
+    if r < 0.80:
         return rint(rng)
+    if r < 0.90:
+        return rng.choice([F64(2.75), F64(3.0), F32(7.0), F32(2.5), F64(-1.0), F64(0.0), rf64(rng), rf32(rng)])
+    if r < 0.92:
+        return ("bool", rng.random() < 0.5)
+    if r < 0.94:
+        return NIL
+    if r < 0.96:
+        return ("bin", rng.choice([b"cpu", b"", b"\xff"]))
     return rjunk(rng, 2)
 
 
@@ -673,6 +682,10 @@ def run(res, tier, seed):
     th = threading.Thread(target=_harness)
     th.start()
     failed = vlib.std_proof_stage(res, "C02", AREA, MODULES, THEOREMS)
+    if tier == "thorough":
+        ok, _ = vlib.coqchk_stage(res, MODULES)
+        if not ok:
+            failed.append(("coqchk", "coqchk did not accept the compiled development"))
     res.cov["trusted_base"] += [
         "byte -> AST parse of the Basekick-Labs/msgpack v6 fork is the same function for Unmarshal and for the streaming Decoder calls of the typed path (oracle; supported by the byte-mutation stream: typed-on = typed-off on mutated encodings)",
         "float semantics and SanitizeUTF8 are parameters (record ops) of every theorem; the correspondence instantiates them with Model.go_ops (IEEE-754 bit-level functions, amd64 conversion results) and the SanitizeUTF8 images observed on the Go side",
@@ -753,19 +766,8 @@ def run(res, tier, seed):
     res.cov["samples"] = [{"ast": mp.to_json(all_asts[i]), "hex": all_inps[i]["hex"], "on": summarize(all_res[i]["on"]), "off": summarize(all_res[i]["off"])}
                           for i in (0, len(wit) + 3, len(all_asts) - 1) if i < len(all_asts)]
 
-    # ---- 1. model / implementation disagreement: the tie is broken -> shrink, report
-    if dis:
-        i = dis[0]
-        small = shrink(all_asts[i], "agree") if len(dis) < 400 else all_asts[i]
-        inp = mk_input(0, small)
-        r1, f1 = evaluate([small], [inp], "shrink", "Shrink")
-        res.violation("model and implementation disagree on a payload (%d cases)" % len(dis),
-                      {"kind": "correspondence", "correspondence": TIE_NAME, "ast": mp.to_json(small), "hex": inp["hex"],
-                       "observed": r1[0], "disagreeing_cases": len(dis), "oracle_fails_on_impl": bool(f1["oracle"]),
-                       "how_to_replay": "python3 tools/check.py C02 --replay <this file>"},
-                      no_input=not f1["oracle"], suffix="corr")
-
-    # ---- 2. typed-on differs from typed-off on the real code
+    # ---- 1. typed-on differs from typed-off on the real code: the property fails on the implementation.
+    # Reported first and always with the concrete (shrunk, re-evaluated) payload.
     reproduced = {}
     unexplained = []
     for i in orf:
@@ -782,19 +784,37 @@ def run(res, tier, seed):
     for sig, idxs in reproduced.items():
         e = known_sigs[sig]
         res.known_finding("%s [signature=%s, %d generated inputs, model predicts each outcome]" % (e["what"], sig, len(idxs)))
-    if unexplained and not dis:
+    if unexplained:
         i = unexplained[0]
         small = shrink(all_asts[i], "oracle")
         inp = mk_input(0, small)
-        r1, _ = evaluate([small], [inp], "shrink", "Shrink")
-        res.violation("typed decode on/off give different results on the real code for an input outside the known classes (%d cases)" % len(unexplained),
+        r1, f1 = evaluate([small], [inp], "shrink", "Shrink")
+        if not f1["oracle"]:            # shrinking must keep the difference; fall back to the original case
+            small, inp = all_asts[i], mk_input(0, all_asts[i])
+            r1, f1 = evaluate([small], [inp], "shrink", "Shrink")
+        res.violation("typed decode on/off give different results on the real code (%d cases); model %s this outcome"
+                      % (len(unexplained), "does not predict" if f1["agree"] else "predicts"),
                       {"kind": "oracle", "ast": mp.to_json(small), "hex": inp["hex"], "observed": r1[0], "cases": len(unexplained),
+                       "typed_on_differs_from_typed_off": bool(f1["oracle"]), "model_disagrees": bool(f1["agree"]),
+                       "disagreeing_cases": len(dis), "correspondence": TIE_NAME,
                        "how_to_replay": "python3 tools/check.py C02 --replay <this file>"}, suffix="oracle")
     if raw_bad:
         inp, r, kind = raw_bad[0]
         res.violation("typed decode on/off differ on a byte string that is not a complete msgpack value (%s; %d cases)" % (kind, len(raw_bad)),
                       {"kind": "oracle-bytes", "hex": inp["hex"], "observed": r, "mutation": kind,
                        "how_to_replay": "python3 tools/check.py C02 --replay <this file>"}, suffix="bytes")
+
+    # ---- 2. model / implementation disagreement without any on/off difference: the tie is broken
+    if dis and not res.violations:
+        i = dis[0]
+        small = shrink(all_asts[i], "agree") if len(dis) < 400 else all_asts[i]
+        inp = mk_input(0, small)
+        r1, f1 = evaluate([small], [inp], "shrink", "Shrink")
+        res.violation("model and implementation disagree on a payload (%d cases)" % len(dis),
+                      {"kind": "correspondence", "correspondence": TIE_NAME, "ast": mp.to_json(small), "hex": inp["hex"],
+                       "observed": r1[0], "disagreeing_cases": len(dis), "oracle_fails_on_impl": bool(f1["oracle"]),
+                       "how_to_replay": "python3 tools/check.py C02 --replay <this file>"},
+                      no_input=not f1["oracle"], suffix="corr")
     # the model predicts a difference exactly where the implementation shows one (inside the classes)
     res.cov["known_class_cases_now_equal_in_both_modes"] = len(fixed_cases)
     res.cov["model_predicts_difference"] = len(model_diff)
